@@ -679,6 +679,120 @@ fn odd_descriptors() -> Vec<String> {
     v
 }
 
+/// Two-sided (and `inv` / pipeline / layout) forms of the acceptance rule: a definition is
+/// accepted iff EVERY descriptor it gives is a documented spelling — whatever the other
+/// descriptor is, in particular also when both texts are the same invalid text.
+#[derive(Clone, Debug, Serialize, Deserialize)]
+struct TwoCase {
+    from: String,
+    to: String,
+    /// 0 `adapt from=F to=T`; 1 `adapt to=T from=F`; 2 `adapt inv from=F to=T`; 3 `adapt inv to=T from=F`;
+    /// 4 blanks around `=`; 5 second step of a pipeline; 6 first step of a pipeline; 7 form 0 on Plain;
+    /// one-sided (only `from` is used): 8 `adapt inv from=F`; 9 `adapt inv to=F`; 10 `noop | adapt to=F`;
+    /// 11 `adapt from=F | noop`
+    form: u8,
+}
+const TWO_SIDED_FORMS: usize = 8;
+const ALL_FORMS: usize = 12;
+
+fn two_def(c: &TwoCase) -> (String, bool, u8) {
+    let (f, t) = (&c.from, &c.to);
+    match c.form {
+        0 => (format!("adapt from={f} to={t}"), true, 0),
+        1 => (format!("adapt to={t} from={f}"), true, 0),
+        2 => (format!("adapt inv from={f} to={t}"), true, 0),
+        3 => (format!("adapt inv to={t} from={f}"), true, 0),
+        4 => (format!("adapt  from = {f}   to = {t} "), true, 0),
+        5 => (format!("adapt from=neuf_deg | adapt from={f} to={t}"), true, 0),
+        6 => (format!("adapt to={t} from={f} inv | noop"), true, 0),
+        7 => (format!("adapt from={f} to={t}"), true, 2),
+        8 => (format!("adapt inv from={f}"), false, 0),
+        9 => (format!("adapt inv to={f}"), false, 0),
+        10 => (format!("noop | adapt to={f}"), false, 0),
+        _ => (format!("adapt from={f} | noop"), false, 0),
+    }
+}
+
+fn check_two(c: &TwoCase, rec: &mut Rec) -> CaseResult {
+    let (def, two_sided, ctxk) = two_def(c);
+    let vf = parse_desc(&c.from).is_some();
+    let vt = !two_sided || parse_desc(&c.to).is_some();
+    let valid = vf && vt;
+    let equal = two_sided && c.from == c.to;
+    let res = if ctxk == 0 { try_op(&mut Minimal::default(), &def) } else { try_op(&mut Plain::default(), &def) };
+    match res {
+        Err(p) => vfail!(format!("panic-instantiate@{}", p.sig()), "instantiating '{def}' panics instead of {}: {} at {}:{}",
+            if valid { "succeeding" } else { "rejecting the invalid descriptor" }, p.msg, p.file, p.line),
+        Ok(Ok(_)) => {
+            vensure!(valid, if equal { "adapt-invalid-accepted[equal-texts]" } else if two_sided { "adapt-invalid-accepted[two-sided]" } else { "adapt-invalid-accepted" },
+                "'{def}' is accepted although {} not a documented spelling (four letters, one of each of e|w n|s u|d f|p, optional _rad/_deg/_gon/_any){}",
+                match (vf, vt) { (false, false) if equal => format!("'{}' (given for both from and to) is", c.from), (false, false) => format!("'{}' and '{}' are", c.from, c.to), (false, true) => format!("'{}' is", c.from), _ => format!("'{}' is", c.to) },
+                if equal { "; giving the same invalid text on both sides must not turn the operator into a silent no-op" } else { "" });
+            rec.class(if equal { "accepted-equal-valid" } else { "accepted-valid" });
+        }
+        Ok(Err(e)) => {
+            vensure!(!valid, "adapt-valid-rejected", "'{def}': documented spellings rejected: {e:?}");
+            rec.class(match (equal, vf, vt, two_sided) {
+                (true, ..) => "rejected-equal-invalid",
+                (_, _, _, false) => "rejected-one-sided-inv-or-pipeline",
+                (_, false, false, _) => "rejected-both-invalid-different",
+                (_, false, true, _) => "rejected-from-invalid",
+                _ => "rejected-to-invalid",
+            });
+            rec.nontrivial(&def);
+        }
+    }
+    Ok(())
+}
+
+/// every invalid descriptor text of the acceptance sweep: (4096 words x 21 suffix forms) minus the
+/// 1920 valid spellings, plus the odd descriptors
+fn all_invalid_texts() -> Vec<String> {
+    let mut v = vec![];
+    for s in 0..VALID_SUFFIXES.len() + INVALID_SUFFIXES.len() {
+        for w in 0..4096usize {
+            let mut t: String = (0..4).map(|k| ALPHABET[(w >> (3 * k)) & 7]).collect();
+            t.push_str(if s < 5 { VALID_SUFFIXES[s].0 } else { INVALID_SUFFIXES[s - 5] });
+            if parse_desc(&t).is_none() {
+                v.push(t);
+            }
+        }
+    }
+    v.extend(odd_descriptors());
+    assert_eq!(v.len(), 4096 * 21 - N_SPELL + odd_descriptors().len());
+    v
+}
+
+/// the k-th near-diagonal partner of the i-th invalid text
+fn near_partner(inv: &[String], i: usize, k: usize) -> String {
+    let x = &inv[i];
+    let chars: Vec<char> = x.chars().collect();
+    let word: String = chars.iter().take(4).collect();
+    let rest: String = chars.iter().skip(4).collect();
+    match k {
+        // a different invalid text
+        0 => inv[(i + 1) % inv.len()].clone(),
+        // the same text in the other case
+        1 => {
+            let u = x.to_uppercase();
+            let l = x.to_lowercase();
+            if &u != x { u } else if &l != x { l } else { format!("{x}_") }
+        }
+        // a valid spelling, rotating
+        2 => spelling((splitmix(i as u64) % N_SPELL as u64) as usize),
+        // its own valid prefix (the four-letter word), else the internal order with its suffix, else enuf
+        _ => {
+            if parse_desc(&word).is_some() {
+                word
+            } else if parse_desc(&format!("enuf{rest}")).is_some() {
+                format!("enuf{rest}")
+            } else {
+                "enuf".to_string()
+            }
+        }
+    }
+}
+
 // ---------------------------------------------------------------------------------------
 // adapt: the built-in macros
 // ---------------------------------------------------------------------------------------
@@ -1367,6 +1481,61 @@ fn main() {
             no * 2,
             move |i| AcceptCase { desc: odd[i % no].clone(), role: (i / no) as u8 },
             check_accept,
+        );
+    }
+
+    // ---- adapt: rejection when BOTH sides are given (diagonal and near-diagonal) ---------------
+    {
+        let inv = std::sync::Arc::new(all_invalid_texts());
+        let ni = inv.len();
+        let inv1 = inv.clone();
+        // quick: forms 0 (`from=X to=X`) and 2 (`inv`) for every X, the other ten forms rotating
+        // (one per X); thorough: all twelve forms for every X
+        let eq_reps = if thorough { ALL_FORMS } else { 3 };
+        run.enumerate(
+            "adapt-equal-invalid",
+            &format!("every invalid descriptor text X of the acceptance sweep ({ni} = 4096 words x 21 suffix forms minus the 1920 valid, plus the odd descriptors) given for BOTH from and to (`from=X to=X`, `to=X from=X`, with `inv`, blanks around `=`, as second / first step of a pipeline, on Plain) and in the one-sided `inv` and pipeline forms; quick = `from=X to=X` and `inv from=X to=X` for every X plus one of the other ten forms per X (rotating), thorough = all twelve: must be rejected; non-trivial = rejected"),
+            ni * eq_reps,
+            move |i| {
+                let x = i % ni;
+                let r = i / ni;
+                let form = if eq_reps == ALL_FORMS { r } else { [0, 2, [1, 3, 4, 5, 6, 7, 8, 9, 10, 11][x % 10]][r] };
+                TwoCase { from: inv1[x].clone(), to: inv1[x].clone(), form: form as u8 }
+            },
+            check_two,
+        );
+        let inv2 = inv.clone();
+        let reps = if thorough { TWO_SIDED_FORMS } else { 1 };
+        run.enumerate(
+            "adapt-near-diagonal",
+            "every invalid text X paired, in both orders, with: the next (different) invalid text, X in the other letter case, a valid spelling (rotating), and its own valid four-letter prefix (else enuf+suffix, else enuf); two-sided forms {from/to, to/from, inv, inv to/from, blanks, pipeline second / first step, Plain}: quick = one form per pair rotating with the index, thorough = all eight; accepted iff both texts are documented spellings",
+            ni * 8 * reps,
+            move |i| {
+                let x = i % ni;
+                let k = (i / ni) % 4;
+                let swapped = (i / (4 * ni)) % 2 == 1;
+                let form = if reps == 1 { ((x + 3 * k + usize::from(swapped)) % TWO_SIDED_FORMS) as u8 } else { (i / (8 * ni)) as u8 };
+                let p = near_partner(&inv2, x, k);
+                if swapped { TwoCase { from: p, to: inv2[x].clone(), form } } else { TwoCase { from: inv2[x].clone(), to: p, form } }
+            },
+            check_two,
+        );
+        run.enumerate(
+            "adapt-equal-valid",
+            "control: every valid spelling X given for both from and to in all twelve forms must be accepted; and X paired with X in upper case (both orders, form rotating) must be rejected",
+            N_SPELL * (ALL_FORMS + 2),
+            move |i| {
+                let x = spelling(i % N_SPELL);
+                let r = i / N_SPELL;
+                if r < ALL_FORMS {
+                    TwoCase { from: x.clone(), to: x, form: r as u8 }
+                } else if r == ALL_FORMS {
+                    TwoCase { from: x.clone(), to: x.to_uppercase(), form: (i % TWO_SIDED_FORMS) as u8 }
+                } else {
+                    TwoCase { from: x.to_uppercase(), to: x, form: (i % TWO_SIDED_FORMS) as u8 }
+                }
+            },
+            check_two,
         );
     }
 
